@@ -105,6 +105,11 @@ func genC03(r *Rng) *Plan {
 		if r.Chance(1, 4) {
 			hdrs = append(hdrs, [2]string{"X-Forwarded-For", "10.0.0.1"}, [2]string{"X-Other", "kept"})
 		}
+		if r.Chance(1, 6) {
+			// the client names identity headers as hop-by-hop ("Connection: <header>" asks every intermediary to drop
+			// that header before forwarding): "whatever a client sends", the backend is told who the user is
+			hdrs = append(hdrs, [2]string{"Connection", r.Pick("X-Forwarded-Email", "x-forwarded-user, x-forwarded-groups", "close, X-Forwarded-Email", "X-Forwarded-User", "X-Forwarded-Groups")})
+		}
 		st := Step{Op: "get", B: "b1", Host: host, Headers: hdrs, Dt: posDur(landmark(r, cfg) / 2),
 			Target: r.Pick("/", "/private", "/public/a", "/health", "/public/../x", "/api?x=1", "/favicon.ico", "/oauth2/auth", "/robots.txt", "/public/favicon.ico"), Method: r.Pick("GET", "GET", "POST", "OPTIONS", "PUT")}
 		// cookie layouts: the session cookie first / middle / last / duplicated among other cookies
@@ -358,6 +363,11 @@ func genC12(r *Rng) *Plan {
 		}
 		if r.Chance(1, 3) {
 			st.CookieHdr = "theme=dark; sid=abc"
+		}
+		if r.Chance(1, 8) {
+			// the client nominates the signature (or a covered header) as hop-by-hop: what the backend receives is still
+			// signed, and the signature covers the headers as they arrive
+			hdrs = append(hdrs, [2]string{"Connection", r.Pick("Sso-Signature", "kid", "close, sso-signature", "Gap-Signature", "Authorization", "X-Forwarded-Email, Date", "Content-Type")})
 		}
 		st.Headers = hdrs
 		if tamper && r.Chance(1, 3) {
